@@ -196,7 +196,10 @@ inductive PkT where
 open PallasVerif.Blake2b (blake2b256)
 open PallasVerif.Ed25519 (leNat leBytes encode decodeLenient smul padd pneg basePt neutral L)
 
-def isSmallOrder (A : PallasVerif.Ed25519.Pt) : Bool := encode (smul 8 A) == encode neutral
+/-- `is_small_order`: `[8]A` is the identity `(0 : y : y : _)` (tested projectively, no inversion) -/
+def isSmallOrder (A : PallasVerif.Ed25519.Pt) : Bool :=
+  let q := smul 8 A
+  q.x % PallasVerif.Ed25519.p == 0 && q.y % PallasVerif.Ed25519.p == q.z % PallasVerif.Ed25519.p
 
 /-- ed25519-dalek 2.x `VerifyingKey::verify_strict` (key and R decompressed leniently, canonical `S`,
     small-order key or R rejected, cofactorless equation compared on the encoding of R) -/
